@@ -1,6 +1,7 @@
-(* C02 — theorems.  Only statements and `exact lemma` here. *)
+(* C02 — theorems.  Only statements and `exact lemma` here.  NOTES.md says in plain words what each
+   one means and what is not proved. *)
 From GixV.Base Require Import Bytes Outcome.
-From GixV.C02 Require Import Model Spec ProofsTree.
+From GixV.C02 Require Import Model Spec ProofsTree ProofsIter ProofsTagIter ProofsWrite ProofsKnown.
 
 (* ---- trees ------------------------------------------------------------------------------------ *)
 
@@ -34,3 +35,97 @@ Qed.
 Example tree_example :
   tree_wf [mkEntry 33188 (bs "a-b") (repeat x11 20); mkEntry 16384 (bs "a") (repeat x00 20)] = true.
 Proof. vm_compute. reflexivity. Qed.
+
+(* ---- commits: the token stream is the field list, for EVERY byte string ------------------------- *)
+
+(* whenever CommitRef::from_bytes accepts, CommitRefIter yields exactly Tree, Parent*, Author,
+   Committer, Encoding?, ExtraHeader*, Message carrying the same values (ids: the hex text decoded),
+   without error, panic or fuel exhaustion *)
+Theorem commit_iter_agrees_with_full : forall data c, commit_decode data = Ok c ->
+  exists t ps, oid_from_hex (c_tree c) = Some t /\ parse_all (c_parents c) = Some ps
+               /\ commit_iter data = map IOk (commit_tokens c t ps).
+Proof. exact L_commit_iter_agrees. Qed.
+
+(* whenever CommitRef::from_bytes rejects, CommitRefIter never reaches a Message token: it ends in an
+   error, or it silently stops at the end of a truncated object *)
+Theorem commit_iter_on_failure : forall data e,
+  commit_decode data = Err e -> forall m, ~ In (IOk (CMessage m)) (commit_iter data).
+Proof. exact L_commit_iter_on_failure. Qed.
+
+(* consequently re-encoding a decoded commit never hits the `expect` on the hex ids *)
+Theorem commit_write_never_panics_on_decoded : forall data c,
+  commit_decode data = Ok c -> commit_write c <> Panic.
+Proof. exact L_commit_write_np. Qed.
+
+(* ---- tags ---------------------------------------------------------------------------------------- *)
+
+(* whenever TagRef::from_bytes accepts, TagRefIter yields Target, TargetKind, Name with the same values
+   and then Tagger and Body with the same values — except that it stops as soon as the input is used
+   up: an absent body (and an absent tagger before it) is then not reported ([tail_ok]) *)
+Theorem tag_iter_agrees_with_full : forall data g, tag_decode data = Ok g ->
+  exists id l, oid_from_hex (g_target g) = Some id
+    /\ tag_iter data = IOk (TTarget id) :: IOk (TKind (g_kind g)) :: IOk (TName (g_name g)) :: l
+    /\ tail_ok (g_tagger g) (g_message g) (g_pgp g) l.
+Proof. exact L_tag_iter_agrees. Qed.
+
+Theorem tag_iter_on_failure : forall data e,
+  tag_decode data = Err e -> forall m p, ~ In (IOk (TBody m p)) (tag_iter data).
+Proof. exact L_tag_iter_on_failure. Qed.
+
+(* ---- writers: signatures as git formats them ------------------------------------------------------ *)
+
+Theorem time_reencodes_as_git_wrote_it : forall t, time_wf t = true ->
+  time_write (time_of t) = Ok (git_write_time t).
+Proof. exact L_time_write_of. Qed.
+
+Theorem signature_reencodes_as_git_wrote_it : forall s, sig_wf s = true ->
+  sig_write (sig_of s) = Ok (git_write_sig s).
+Proof. exact L_sig_write_of. Qed.
+
+Example sig_example : sig_wf (mkGSig (bs " A U Thor ") (bs "a b@c") (mkGTime (-1) true 99 59)) = true.
+Proof. vm_compute. reflexivity. Qed.
+
+(* ---- the round trip of git-written commits and tags: FULL statements (not proved for all values; the
+   harness tests them on every generated value, the Examples below are computed instances) ---------- *)
+
+Definition commit_git_roundtrip_full_statement : Prop := forall c, commit_wf c = true ->
+  commit_decode (git_write_commit c) = Ok (commitref_of c)
+  /\ commit_iter (git_write_commit c) = map IOk (commit_tokens_of c)
+  /\ commit_write (commitref_of c) = Ok (git_write_commit c).
+
+Definition tag_git_roundtrip_full_statement : Prop := forall g, tag_wf g = true ->
+  tag_decode (git_write_tag g) = Ok (tagref_of g)
+  /\ tag_write (tagref_of g) = Ok (git_write_tag g).
+
+Example commit_git_roundtrip_instance :
+  commit_wf ex_commit = true
+  /\ commit_decode (git_write_commit ex_commit) = Ok (commitref_of ex_commit)
+  /\ commit_iter (git_write_commit ex_commit) = map IOk (commit_tokens_of ex_commit)
+  /\ commit_write (commitref_of ex_commit) = Ok (git_write_commit ex_commit).
+Proof. exact L_ex_commit. Qed.
+
+Example tag_git_roundtrip_instance :
+  tag_wf ex_tag = true
+  /\ tag_decode (git_write_tag ex_tag) = Ok (tagref_of ex_tag)
+  /\ tag_write (tagref_of ex_tag) = Ok (git_write_tag ex_tag).
+Proof. exact L_ex_tag. Qed.
+
+(* ---- known classes: tags `git mktag` creates, for which the statement is FALSE of the code --------- *)
+
+Theorem mktag_objects_reencode_verbatim_refuted :
+  (is_ok (tag_decode x_email_ws) = true /\ reencodes_verbatim x_email_ws = false)
+  /\ (is_ok (tag_decode x_tz_minutes) = true /\ reencodes_verbatim x_tz_minutes = false)
+  /\ (is_ok (tag_decode x_ts_plus) = true /\ reencodes_verbatim x_ts_plus = false)
+  /\ (exists g, tag_decode x_tz_over = Ok g /\ tag_write g = Err EWrite)
+  /\ (exists g, tag_decode x_name_dash = Ok g /\ tag_write g = Err EWrite)
+  /\ (exists g, tag_decode x_no_sep = Ok g /\ tag_write g = Ok (x_no_sep ++ NL) /\ length (tag_iter x_no_sep) = 4%nat).
+Proof.
+  repeat split; first [apply L_known_email_ws | apply L_known_tz_minutes | apply L_known_ts_plus
+                      | exact L_known_tz_over | exact L_known_name_dash | exact L_known_no_sep].
+Qed.
+
+Theorem mktag_objects_decode_refuted : tag_decode x_ts_space = Err EDecode.
+Proof. exact L_known_ts_space. Qed.
+
+Example mktag_plain_object_roundtrips : reencodes_verbatim x_plain = true /\ length (tag_iter x_plain) = 5%nat.
+Proof. exact L_plain_ok. Qed.
